@@ -117,6 +117,13 @@ def step (s : St) (t : Tid) (x : Nat) : Option St :=
   | .r0 => some { s with pc := upd s.pc t .idle, lret := upd s.lret (s.reg t) true,
                          rets := { tid := t, key := s.key t, exec := s.reg t, val := s.cval (s.reg t) } :: s.rets }
 
+/-- `ResourceManager.Inject(key, resource)`: `lock.Lock(); resources[key] = resource; lock.Unlock()` — one atomic
+action with respect to the RW mutex (enabled iff no reader and no writer).  NOT part of `Reach`: the theorems are
+about managers whose map is only written by `GetResource` (Inject after a create trivially hands a second instance
+out, see the example in Props.lean); the correspondence runs use it to pre-register resources before any call. -/
+def inject (s : St) (k : Key) (v : Val) : Option St :=
+  if s.rw = none ∧ s.nrd = 0 then some { s with res := upd s.res k (some v) } else none
+
 /-- the statement of `GetResource`'s closure each `g`/`m` row stands for (tied in `Tie.lean`). -/
 def stmt : PC → String
   | .g0 => "call manager.lock.RLock()"
